@@ -84,6 +84,14 @@ Proof.
   - apply ots_priv_rfc.
 Qed.
 
+
+(* the hash preimage layouts of the current source (translator: ordered .chain / .update arguments
+   per function) are the layouts the model writes down (Model/HashInputs.v) *)
+From HbsLms Require Model.HashInputs.
+Theorem C08_hash_input_layouts : src_hash_inputs = HashInputs.model_hash_inputs.
+Proof. apply HashInputs.layouts_eqb_eq. vm_compute. reflexivity. Qed.
+
+Print Assumptions C08_hash_input_layouts.
 Print Assumptions C08_key_layout.
 Print Assumptions C08_parameter_roundtrip.
 Print Assumptions C08_derivation.
